@@ -30,7 +30,7 @@ type schedCase struct {
 	Opts   string         `json:"opts"`  // engine option set
 }
 
-var schedPart = pbt.Part[schedCase]{Name: "completion-order-independence", Quick: 3000, Thorough: 60000, Check: checkSched,
+var schedPart = pbt.Part[schedCase]{Name: "completion-order-independence", Journal: true, Quick: 3000, Thorough: 60000, Check: checkSched,
 	Gen: func(t *rapid.T) schedCase {
 		l := fedgen.Gen(t, fedgen.Options{Allow: allowFromEnv()})
 		super, err := sim.LoadSuper(l.Super)
